@@ -290,7 +290,8 @@ def shape_get_handler(fn, P):
         for s in stmts:
             src = ast.unparse(s)
             if isinstance(s, ast.If):
-                if '_type_cache' in ast.unparse(s.test):
+                # the tests that decide about the memo, and the guards of the `raise`s
+                if '_type_cache' in ast.unparse(s.test) or any(isinstance(b, ast.Raise) for b in s.body):
                     out.append('if ' + ast.unparse(s.test))
                 emit(s.body)
                 emit(s.orelse)
@@ -300,6 +301,8 @@ def shape_get_handler(fn, P):
                     emit(h.body)
             elif isinstance(s, ast.Raise):
                 out.append('raise ' + (ast.unparse(s.exc.func) if isinstance(s.exc, ast.Call) else ast.unparse(s.exc)))
+            elif isinstance(s, ast.Return):
+                out.append(src)
             elif '_type_cache' in src:
                 out.append(src)
     emit(fn.body)
@@ -916,6 +919,77 @@ def err_facts(ctx, core):
     return mutable, fsets, inputs, writes, str_over, copy_over, exit_shape, wrap_shape, set_wrapped
 
 
+# ---- private helpers a function was split into are read as part of it ------------------------------
+
+class _Subst(ast.NodeTransformer):
+    def __init__(self, m):
+        self.m = m
+
+    def visit_Name(self, n):
+        import copy
+        return copy.deepcopy(self.m[n.id]) if n.id in self.m else n
+
+
+def inline_helpers(fn, module, depth=3):
+    """`fn` with every statement `_helper(args…)` / `x = _helper(args…)` -- `_helper` a module-level private
+    function called with positional arguments, whose only `return` is its last statement -- replaced by
+    the helper's body (parameters replaced by the argument expressions, the final `return e` by `x = e`).
+    A function that was split into such helpers has the shape it had before."""
+    import copy
+    helpers = {n.name: n for n in module.body if isinstance(n, ast.FunctionDef) and n.name.startswith('_')}
+
+    def body_of(h):
+        b = list(h.body)
+        if b and isinstance(b[0], ast.Expr) and isinstance(b[0].value, ast.Constant) and isinstance(b[0].value.value, str):
+            b = b[1:]
+        return b
+
+    def expand(stmts, d):
+        out = []
+        for st in stmts:
+            call, target = None, None
+            if isinstance(st, ast.Expr) and isinstance(st.value, ast.Call):
+                call = st.value
+            elif (isinstance(st, ast.Assign) and len(st.targets) == 1 and isinstance(st.targets[0], ast.Name)
+                  and isinstance(st.value, ast.Call)):
+                call, target = st.value, st.targets[0]
+            if (d > 0 and call is not None and isinstance(call.func, ast.Name) and call.func.id in helpers
+                    and not call.keywords and not any(isinstance(a, ast.Starred) for a in call.args)):
+                h = helpers[call.func.id]
+                params = [a.arg for a in h.args.args]
+                body = body_of(h)
+                returns = [x for b in body for x in ast.walk(b) if isinstance(x, ast.Return)]
+                last_ret = body[-1] if body and isinstance(body[-1], ast.Return) else None
+                ok = (len(params) == len(call.args) and not h.args.vararg and not h.args.kwarg and not h.args.kwonlyargs
+                      and len(returns) == (1 if last_ret is not None else 0)
+                      and (target is None or (last_ret is not None and last_ret.value is not None)))
+                if ok:
+                    m = dict(zip(params, call.args))
+                    new = [_Subst(m).visit(copy.deepcopy(b)) for b in (body[:-1] if last_ret is not None else body)]
+                    if target is not None:
+                        new.append(ast.Assign(targets=[copy.deepcopy(target)], value=_Subst(m).visit(copy.deepcopy(last_ret.value)),
+                                              lineno=st.lineno, col_offset=st.col_offset))
+                    out.extend(expand(new, d - 1))
+                    continue
+            st = copy.copy(st)
+            for fld in ('body', 'orelse', 'finalbody'):
+                sub = getattr(st, fld, None)
+                if isinstance(sub, list) and sub and isinstance(sub[0], ast.stmt):
+                    setattr(st, fld, expand(sub, d))
+            if isinstance(st, ast.Try):
+                hs = []
+                for hd in st.handlers:
+                    hd = copy.copy(hd)
+                    hd.body = expand(hd.body, d)
+                    hs.append(hd)
+                st.handlers = hs
+            out.append(st)
+        return out
+    fn2 = copy.copy(fn)
+    fn2.body = expand(fn.body, depth)
+    return ast.fix_missing_locations(fn2)
+
+
 def extract(ctx):
     P = ctx['P']
     find_def = ctx['find_def']
@@ -957,6 +1031,8 @@ def extract(ctx):
         obj_writes += shared_object_writes(tree, m)
     # ---- scope literals
     g = find_def(core, 'glom')
+    if g is not None:
+        g = inline_helpers(g, core)
     root, glom_scope = new_child_literal(g) if g is not None else (None, None)
     if glom_scope is None:
         P.add('glom(): `X.new_child({...})` with a dict literal not found')
@@ -1022,6 +1098,8 @@ def extract(ctx):
     sg = find_def(core, 'glom', cls='Spec')
     if sg is None:
         P.add('Spec.glom not found')
+    else:
+        sg = inline_helpers(sg, core)
     spec_resets = reentry_resets(sg, 'Spec.glom', P) if sg is not None else []
     glom_resets = reentry_resets(g, 'glom', P) if g is not None else []
     facts = [
